@@ -427,6 +427,18 @@ func cmdRun(args []string) int {
 	os.MkdirAll(work, 0o755)
 
 	plan := p.Plan(*tier, *seed)
+	devKinds := os.Getenv("VERIF_DEV_KINDS")
+	if devKinds != "" {
+		// development aid: only the kinds with this prefix (the run is
+		// reported inconclusive, it is not the registered check)
+		var sub []core.Segment
+		for _, sg := range plan {
+			if strings.HasPrefix(sg.Kind, devKinds) {
+				sub = append(sub, sg)
+			}
+		}
+		plan = sub
+	}
 	var shards []shard
 	exhaustive := len(plan) > 0
 	var totalN int64
@@ -462,6 +474,9 @@ func cmdRun(args []string) int {
 	var viols []core.Violation
 	var mu sync.Mutex
 	var inconclusive []string
+	if devKinds != "" {
+		inconclusive = append(inconclusive, "VERIF_DEV_KINDS is set: only a part of the plan was run")
+	}
 	cpuLimit := uint64(600)
 	if *tier == "thorough" {
 		cpuLimit = 3600
